@@ -113,6 +113,19 @@ func build(race bool, out string) error {
 	if race {
 		args = append(args, "-race")
 	}
+	if r := os.Getenv("VERIF_REPO"); r != "" && r != "/repo" {
+		// background sweeps against a snapshot of /repo (vp run --with-repo), so that
+		// scratch edits of /repo do not leak into them; the registered commands never set this
+		mod, err := os.ReadFile(filepath.Join(root, "go.mod"))
+		if err != nil {
+			return err
+		}
+		sum, _ := os.ReadFile(filepath.Join(root, "go.sum"))
+		mod = bytes.ReplaceAll(mod, []byte("=> /repo"), []byte("=> "+r))
+		os.WriteFile(out+".mod", mod, 0o644)
+		os.WriteFile(out+".sum", sum, 0o644)
+		args = append(args, "-modfile="+out+".mod")
+	}
 	args = append(args, "./sim/")
 	cmd := exec.Command(goTool, args...)
 	cmd.Dir = root
